@@ -111,7 +111,7 @@ def poo_consts(rhomax, kmax=8, S=1 << 20, nmax=1 << 22):
 
 
 # ---------------------------------------------------------------------------
-def tb_consts(algo, nu, rho, rounds=None, c=None, delta=None, bound=None, H=48, KE=13, RU=64, maxcnt=600, rmax=1.0):
+def tb_consts(algo, nu, rho, rounds=None, c=None, delta=None, bound=None, H=48, KE=13, RU=64, maxcnt=600, rmax=1.0, resolve=False):
     """tables for TreeBandit.tla.  Returns None if the configuration cannot be represented
     (delta~ not below 1/2, fixed point would overflow, a table entry ambiguous)."""
     nu, rho = D(nu), D(rho)
@@ -132,7 +132,10 @@ def tb_consts(algo, nu, rho, rounds=None, c=None, delta=None, bound=None, H=48, 
                 ok = False
             tabs["w2"] = int(w2.to_integral_value(rounding=ROUND_HALF_EVEN))
             x = (ln(rounds) / 2 - ln(1 / nu)) / ln(1 / rho)
-            if near_int(x):
+            # within 1e-9 of an integer the library's float evaluation is fragile; by default such configurations are
+            # skipped.  resolve=True (deliberate boundary tests) takes the exact value of the published formula on
+            # the given floats: 60 digits resolve it unless it is an integer to 35 digits, which snap() makes exact.
+            if near_int(x) and not resolve:
                 out["amb"] = 1
             tabs["dbound"] = dceil(snap(x))
         else:
